@@ -196,6 +196,14 @@ impl Mime {
         ensures match r { Some(p) => self.param_s(name@) == Some(*p), None => self.param_s(name@) is None },
     { unimplemented!() }
 }
+// ASSUMED (core; present only so that a body that inspects the raw header text stays within reach):
+// Option::is_some_and calls the predicate on a present value; str::contains is an unspecified test
+pub assume_specification<T, F: FnOnce(T) -> bool> [core::option::Option::<T>::is_some_and] (o: Option<T>, f: F) -> (r: bool)
+    requires o matches Some(t) ==> call_requires(f, (t,)),
+    ensures
+        o is None ==> !r,
+        o matches Some(t) ==> call_ensures(f, (t,), r);
+pub assume_specification<P: core::str::pattern::Pattern> [str::contains] (s: &str, pat: P) -> (r: bool);
 // ASSUMED (core): Option<String>::as_deref borrows the text
 #[verifier::external_body]
 pub fn as_deref_str(o: &Option<String>) -> (r: Option<&str>)
